@@ -125,7 +125,7 @@ class Runner:
         from concurrent.futures import ThreadPoolExecutor
         with ThreadPoolExecutor(3) as ex:
             res = list(ex.map(lambda _: run_replay(binary, dest, self.env, timeout), range(3)))
-        if all(r[0] in accept for r in res):
+        if all(r[0] in accept for r in res) or (self.cfg.get("replay_any") and any(r[0] in accept for r in res)):
             detail = res[0][1].strip().splitlines()
             self.violations.append((dest, why or (detail[-1] if detail else "")))
             return True
